@@ -52,6 +52,9 @@ def c05(tier, seed):
     for y in years:
         crop = rnd.choice(["Cotton", "CottonGDD"]) if y in (1984, 1987, 1988) else rnd.choice(["Cotton", "CottonGDD", "Sorghum", "SorghumGDD", "Maize", "Sunflower", "Soybean"])
         scs.append(L.builtin_scenario(crop, y, irr={"method": 1, "kw": {"SMT": [rnd.choice([20, 20, 30])] * 4, "MaxIrr": rnd.choice([6, 6, 8])}}))
+    # minimum rooting depth / aeration threshold set by the user, with fallow days before the first planting date
+    scs.append(S("Maize", "SandyLoam", seed=rnd.randrange(10 ** 6), lead=10, crop_kw={"Zmin": 0.5, "Aer": 12}))
+    scs.append(S("Tomato", "Loam", seed=rnd.randrange(10 ** 6), lead=25, off_season=True, crop_kw={"Zmin": 0.45}, seasons=2))
     # a water table a few centimetres above the crop's maximum rooting depth, i.e. inside the lower half of the bottom compartment of the profile
     # the model deepens for the crop (the table stops the roots although it lies below every compartment centre)
     for crop, zmax in (("Wheat", 1.5), ("Maize", 2.3), ("Sorghum", 2.0)) if tier != "thorough" else (("Wheat", 1.5), ("Maize", 2.3), ("Sorghum", 2.0), ("Cotton", 2.0), ("Sunflower", 2.0), ("Barley", 1.3)):
@@ -73,6 +76,8 @@ def c06(tier, seed):
         crop = ["Maize", "Wheat", "Sorghum", "Tomato", "Barley", "Soybean", "Potato"][i]
         scs.append(S(crop, rnd.choice(["SandyLoam", "Loam", "ClayLoam"]), seed=seed + i, irr=irr, seasons=2,
                      iwc={"value": ["WP"]} if irr["method"] == 4 else None))
+    # a CO2 series that rises and then stays on a plateau for consecutive planting years (C3 crop: the adjustment differs from year to year, then repeats)
+    scs.append(S("Barley", "Loam", seed=seed + 19, seasons=4, co2={"co2_data": [[1990, 355.0], [2001, 371.0], [2002, 384.0], [2003, 384.0], [2004, 384.0], [2010, 395.0]]}))
     scs += [
         S("Maize", "Sand", seed=seed + 20, regime="arid", iwc={"value": ["WP"]}, wparams={"pwet": 0.0}),                 # early death
         S("Wheat", "LoamySand", seed=seed + 21, regime="hot", iwc={"wc_type": "Pct", "value": [15]}, wparams={"pwet": 0.0}, seasons=2),
@@ -178,6 +183,12 @@ def c13(tier, seed):
                          regime=rnd.choice(["arid", "warm"]) if crop in L.CAL_CROPS else None,
                          seasons=rnd.choice([1, 2]), off_season=rnd.random() < 0.4, lead=rnd.choice([0, 10]),
                          iwc=rnd.choice([None, {"value": ["WP"]}])))
+    # a dated schedule on a management object that served ANOTHER model before (a window of the same length a year earlier; the same window with
+    # another schedule is the table's own business): the schedule stays bound BY DATE
+    sch2 = [["2001/05/05", 30], ["2001/06/10", 40], ["2001/07/03", 18], ["2002/05/08", 25], ["2002/06/20", 35], ["2002/07/15", 22]]
+    b = S("Maize", "SandyLoam", seed=seed + 90, year=2002, irr={"method": 3, "schedule": sch2, "kw": {"MaxIrr": 35}})
+    b["_prelude"] = {"start": b["start"].replace("2002", "2001"), "end": b["end"].replace("2002", "2001")}
+    scs.append(b)
     scs += L.hard_cases(rnd)
     return scs
 
